@@ -438,6 +438,12 @@ fn gen_p(ctx: &Ctx, seed: u64, run_index: u64) -> PScn {
                     image = image.with_file(name, Blob::Utf8("STALE ".repeat(4000)));
                     argv.push(name.into());
                 }
+                4 => {
+                    // disk history: a leftover next to the path (temporary file of a killed earlier save, a backup)
+                    let sib = worldp::stale_sibling(&mut d, name);
+                    image = image.with_file(&sib, Blob::Utf8("STALE ".repeat(4000)));
+                    argv.push(name.into());
+                }
                 _ => argv.push(name.into()),
             }
         }
